@@ -487,6 +487,21 @@ func init() {
 		for c := 0; o.Cases < n && unanswered < 3; c++ {
 			q := genRequest(r, ReqOpts{MaxBiases: 2, Biases: []string{"criteriaOmission", "preferenceReversal", "fatigue", "anchoring"},
 				Methods: []string{"weightedSum", "owa", "choquetIntegral", "electreIII", "majorityHeuristic", "aspectEliminationHeuristic", "satisfactionHeuristic"}})
+			if q.Method == "choquetIntegral" || q.Method == "owa" {
+				// criterion-adding biases always fail for these two methods (registered C07 findings): keep the base valid
+				var kept []interface{}
+				if bl, ok := q.Body["biases"].([]interface{}); ok {
+					for _, b := range bl {
+						if b.(J)["name"] != "anchoring" {
+							kept = append(kept, b)
+						}
+					}
+					q.Body["biases"] = kept
+					if kept == nil {
+						delete(q.Body, "biases")
+					}
+				}
+			}
 			// boundary-heavy variants: series that run up to the documented bounds, ties at the best value
 			if q.Method == "aspectEliminationHeuristic" || q.Method == "satisfactionHeuristic" {
 				mp := q.Body["methodParameters"].(J)
@@ -540,7 +555,10 @@ func init() {
 			o.count("valid:" + q.Method)
 			// every applicable documented violation, one at a time
 			for _, v := range violations {
-				if !thorough && !r.chance(0.35) {
+				// violations that fit one method only are always tried (their base requests are rare)
+				methodSpecific := strings.HasPrefix(v.name, "choquet-") || strings.HasPrefix(v.name, "electre-") || strings.HasPrefix(v.name, "levels-") ||
+					v.name == "unknown-levels-function" || v.name == "unknown-draw-resolution" || v.name == "unknown-current-choice"
+				if !thorough && !methodSpecific && !r.chance(0.35) {
 					continue
 				}
 				b := cloneJ(q.Body)
@@ -588,6 +606,35 @@ func init() {
 					js, _ := json.Marshal(wb)
 					send(Meta{Case: c, Stage: "weird", Input: J{"request": wb}, Key: "w" + string(js)}, js, 0, "")
 					o.count("weird")
+				}
+				{ // criteria that already carry the names the biases generate for added criteria
+					base := []string{"__concealedCriterion__", "__c0+c1__"}[r.Intn(2)]
+					pool := []string{base, base + "1", base + "2", base + "3", base + "4", "c0", "c1"}
+					var cids []string
+					for _, id := range pool {
+						if r.chance(0.55) || id == "c0" {
+							cids = append(cids, id)
+						}
+					}
+					var crit []interface{}
+					w, va, vb := J{}, J{}, J{}
+					for i, id := range cids {
+						crit = append(crit, J{"id": id, "type": "gain"})
+						w[id], va[id], vb[id] = float64(1+i%3), float64(r.Intn(9)), float64(r.Intn(9))
+					}
+					var bl []interface{}
+					for i, nb := 0, r.rangeInt(1, 3); i < nb; i++ {
+						bl = append(bl, J{"name": "criteriaConcealment", "props": J{"randomSeed": r.Intn(100)}})
+					}
+					if base == "__c0+c1__" && len(cids) >= 2 {
+						bl = []interface{}{J{"name": "criteriaMixing", "props": J{"randomSeed": r.Intn(100)}}}
+					}
+					rb := J{"preferenceFunction": []string{"weightedSum", "majorityHeuristic"}[r.Intn(2)], "criteria": crit,
+						"knownAlternatives": []interface{}{J{"id": "a", "criteria": va}, J{"id": "b", "criteria": vb}},
+						"choseToMake":       []string{"a", "b"}, "methodParameters": J{"weights": w}, "biases": bl}
+					js, _ := json.Marshal(rb)
+					send(Meta{Case: c, Stage: "reserved-names", Input: J{"request": rb}, Key: "rn" + string(js)}, js, 0, "")
+					o.count("reserved-names")
 				}
 				for _, mb := range malformed {
 					send(Meta{Case: c, Stage: "malformed", Input: J{"raw_body": mb}, Key: "m" + mb}, []byte(mb), 400, "malformed JSON was not rejected with 400")
